@@ -18,6 +18,7 @@ def mc_cfg(xs, ks, maxlen, dual, depth, wrong=False, emit=False, invs=INVS):
     c = ["SPECIFICATION Spec", "CONSTANT Xs = {%s}" % ", ".join('"%s"' % x for x in xs), "CONSTANT Ks = {%s}" % ", ".join('"%s"' % k for k in ks),
          'CONSTANT K0 = "%s"' % ks[0], "CONSTANT MaxLen = %d" % maxlen, "CONSTANT Dual = %s" % ("TRUE" if dual else "FALSE"),
          "CONSTANT Depth = %d" % depth, "CONSTANT WrongHints = %s" % ("TRUE" if wrong else "FALSE"), "CONSTANT Emit = %s" % ("TRUE" if emit else "FALSE"),
+         "CONSTANT QueryEnds = %s" % ("TRUE" if depth <= 3 else "FALSE"),
          "CHECK_DEADLOCK FALSE"]
     c += ["INVARIANT %s" % i for i in invs] + (["INVARIANT EmitHist"] if emit else [])
     return "\n".join(c) + "\n"
